@@ -942,6 +942,110 @@ func oracle(ops, outs []string) *corr.Violation {
 	return nil
 }
 
+// ---------------------------------------------------------------------------------------------- concurrent search
+
+// stressFinalize searches the real code for the interleaving in which a finalized round becomes un-finalized through
+// the conditional reset: the round is Finalizing (as in chain.FinalizeRoundImpl), then the timeout / ctx-done path
+// (ResetFinalizingStateIfNotFinalized) races the finalize-block worker (Finalize). Whatever the order, once both have
+// returned the round must be finalized (Props/C37.finalized_stays_conc: test and store are in one critical section).
+// A search, bounded in time; it proves nothing when it finds nothing.
+func stressFinalize(thorough bool, seed int64) []corr.Violation {
+	logging.Logger = zap.NewNop()
+	logging.N2n = zap.NewNop()
+	budget := 5 * time.Second
+	if thorough {
+		budget = 25 * time.Second
+	}
+	deadline := time.Now().Add(budget)
+	workers := 8
+	var (
+		lost, trials int64
+		mu           sync.Mutex
+		first        string
+		wg           sync.WaitGroup
+	)
+	for w := 0; w < workers; w++ {
+		wg.Add(1)
+		go func(w int) {
+			defer wg.Done()
+			b := mkBlock(strconv.Itoa(w), "0")
+			for i := 0; atomic.LoadInt64(&lost) == 0; i++ {
+				if i%256 == 0 && time.Now().After(deadline) {
+					return
+				}
+				r := round.Provider().(*round.Round)
+				r.Number = int64(100 + i)
+				r.SetFinalizing()
+				var done sync.WaitGroup
+				done.Add(2)
+				if (i+w)%2 == 0 {
+					// start both on a spinning gate
+					var gate int32
+					go func() {
+						defer done.Done()
+						for atomic.LoadInt32(&gate) == 0 {
+						}
+						r.ResetFinalizingStateIfNotFinalized()
+					}()
+					go func() {
+						defer done.Done()
+						for atomic.LoadInt32(&gate) == 0 {
+						}
+						r.Finalize(b)
+					}()
+					if i%4 == 0 {
+						runtime.Gosched()
+					}
+					atomic.StoreInt32(&gate, 1)
+				} else {
+					// start both on a closed channel, with staggered yields
+					start := make(chan struct{})
+					go func() {
+						defer done.Done()
+						<-start
+						if i%4 == 1 {
+							runtime.Gosched()
+						}
+						r.ResetFinalizingStateIfNotFinalized()
+					}()
+					go func() {
+						defer done.Done()
+						<-start
+						if i%3 == 0 {
+							runtime.Gosched()
+						}
+						r.Finalize(b)
+					}()
+					close(start)
+				}
+				done.Wait()
+				atomic.AddInt64(&trials, 1)
+				if !r.IsFinalized() {
+					if atomic.AddInt64(&lost, 1) == 1 {
+						mu.Lock()
+						first = fmt.Sprintf("trial %d of worker %d: Finalize(b) returned, yet FinalizeState()=%d IsFinalized()=false after a concurrent ResetFinalizingStateIfNotFinalized()", i, w, r.FinalizeState())
+						mu.Unlock()
+					}
+					return
+				}
+			}
+		}(w)
+	}
+	wg.Wait()
+	stressTrials = atomic.LoadInt64(&trials)
+	if lost == 0 {
+		return nil
+	}
+	ops := []string{"new 100 0 0", "setfinalizing", "concurrently: resetfinifnot || finalize <b>", "isfinalized"}
+	return []corr.Violation{{
+		Signature: "C37:finalized-lost-under-concurrent-reset",
+		Message: fmt.Sprintf("a finalized round became un-finalized through the conditional reset (%s; %d concurrent trials): the isFinalized test and the NotFinalized store of ResetFinalizingStateIfNotFinalized are not inside one critical section of r.mutex", first, stressTrials),
+		Ops:     ops, Impl: []string{"ok", "true", "both returned", "false"},
+	}}
+}
+
+var stressTrials int64
+
 func main() {
 	if len(os.Args) > 1 && os.Args[1] == "-worker" {
 		workerMain()
@@ -954,7 +1058,10 @@ func main() {
 		}
 	}
 	corr.Main(corr.Prop{
-		ID: "C37", Model: "C37", Gen: gen, Impl: impl, Oracle: oracle,
+		ID: "C37", Model: "C37", Gen: gen, Impl: impl, Oracle: oracle, Stress: stressFinalize,
+		Extra: func() map[string]interface{} {
+			return map[string]interface{}{"finalize_vs_conditional_reset_trials": stressTrials}
+		},
 		Cases: func(th bool) int {
 			if th {
 				return 10000
